@@ -166,14 +166,19 @@ fn float3<T: Tier>(rep: &mut Report) {
     // pairs: all (a, b) from the list, plus near-(anti)parallel partners built in f64
     // inside the allowances (1e-9), between them (1e-6), outside both (1e-3), and just outside each (2e-7 / 5e-7 for unit
     // vectors, 2e-4 / 5e-4 for from_arc): a wider "treat as parallel" band than the statement allows shows there
-    let near: [f64; 7] = [1e-9, 2e-7, 5e-7, 1e-6, 2e-4, 5e-4, 1e-3];
+    let near: Vec<f64> = if rep.thorough() {
+        // thorough: a dense ladder through and between the two allowances and out to a tenth of a radian
+        vec![1e-12, 1e-10, 1e-9, 1e-8, 5e-8, 1.5e-7, 2e-7, 5e-7, 1e-6, 3e-6, 1e-5, 3e-5, 8e-5, 1.2e-4, 2e-4, 5e-4, 1e-3, 3e-3, 1e-2, 3e-2, 0.1]
+    } else {
+        vec![1e-9, 2e-7, 5e-7, 1e-6, 2e-4, 5e-4, 1e-3]
+    };
     let n_near = if T::NAME == "D" { n * near.len() * 2 } else { 0 };
     let total = n * n + n_near;
     let lens: [f64; 4] = [1e-3, 0.2, 3.0, 1e3];
     rep.cases(
         "float3",
         T::NAME,
-        &format!("all {n}x{n} pairs of rational unit vectors{}; from_arc with every pair of lengths from {:?} and fallback in {{None, perpendicular}}", if n_near > 0 { " + near-parallel/antiparallel partners at 1e-9, 2e-7, 5e-7, 1e-6, 2e-4, 5e-4, 1e-3 rad" } else { "" }, lens),
+        &format!("all {n}x{n} pairs of rational unit vectors{}; from_arc with every pair of lengths from {:?} and fallback in {{None, perpendicular}}", if n_near > 0 { format!(" + near-parallel/antiparallel partners at {:?} rad", near) } else { String::new() }, lens),
         total,
         Guard::states(100).distinct(100).need("generic", 50),
         |i, ctx| {
